@@ -526,9 +526,27 @@ func runEpub(c *fw.Ctx, j int) {
 		{Name: "META-INF/container.xml", Data: epubw.ContainerXML("OEBPS/content.opf")}}
 	var chapterMembers []epubw.Member
 	htmls := map[string]any{}
+	// ghosts: spine entries that yield no chapter (the file is not in the archive, or
+	// the idref names no manifest item). They may stand anywhere in the spine; the
+	// chapters that do exist are still returned once each, in spine order.
+	ghosts := r.Intn(3) == 0
+	ghost := func(pos int) {
+		if !ghosts || r.Intn(2) == 0 {
+			return
+		}
+		if r.Intn(2) == 0 {
+			fmt.Fprintf(&man, "<item id=\"gone%d\" href=\"text/gone%d.xhtml\" media-type=\"application/xhtml+xml\"/>\n", pos, pos)
+			fmt.Fprintf(&spine, "<itemref idref=\"gone%d\"/>\n", pos)
+			cr.see("feature", "epub-spine-item-file-missing")
+		} else {
+			fmt.Fprintf(&spine, "<itemref idref=\"nosuchitem%d\"/>\n", pos)
+			cr.see("feature", "epub-spine-idref-dangling")
+		}
+	}
 	for k, d := range docs {
 		excl += d.Excludable
 		name := fmt.Sprintf("text/ch%d.xhtml", k+1)
+		ghost(k)
 		fmt.Fprintf(&man, "<item id=\"ch%d\" href=\"%s\" media-type=\"application/xhtml+xml\"/>\n", k+1, name)
 		fmt.Fprintf(&spine, "<itemref idref=\"ch%d\"/>\n", k+1)
 		fmt.Fprintf(&nav, "<li><a href=\"%s\">Chapter %d</a></li>", name, k+1)
